@@ -218,7 +218,8 @@ Derive(d, f, n0) ==
 \* The caller may equally edit an INPUT object in place between two calls on it (poke / put): the second call is judged on
 \* the contents it has then.
 \* the derivations that make sense on every frame of F (an in-place edit needs its cell to exist)
-InPlaceKinds == {"poke", "put"}       \* these edit the object itself; the others make a new object
+InPlaceKinds == {"poke", "put"}       \* these edit the object itself; the others make a new object ...
+ViewKinds    == {"head", "tail"}      \* ... which for a slice (of an array) still shares its data with the object it was cut from
 DeriveOK(d, F) == d.kind \in InPlaceKinds => \A f \in F : d.i >= 1 /\ d.i <= NRows(f) /\ d.j <= NCols(f)
 
 \* ---------------------------------------------------------------------------------------------
